@@ -157,7 +157,10 @@ class C02(SolverSuite):
             for k in G.gen_batches(rng, rng.randint(1, 6)):
                 ops.append({"a": "S0", "op": "iterate", "k": k})
         actors = {"S0": spec}
-        ops = G.sprinkle_evq(rng, ops, "S0", spec)
+        if spec.get("lower") is not None and rng.random() < 0.1:
+            # a shallow objective: the slope estimate M stays at its floor 1 for long stretches
+            spec["objective"] = {"family": "scaled", "N": spec["objective"]["N"], "inner": spec["objective"], "k": rng.choice([0.01, 0.05, 0.2])}
+        ops = G.sprinkle_evq(rng, ops, "S0", spec, refill=True)
         ops = G.sprinkle_clone(rng, ops, "S0")
         ops = G.sprinkle_misc(rng, ops, "S0")
         ops = _maybe_company(rng, actors, ops)
@@ -256,6 +259,10 @@ class C03(SolverSuite):
                     ops.append({"a": "S0", "op": "setp", "field": "eps", "value": float("%.3g" % (spec["params"]["eps"] * rng.choice([0.5, 0.1, 2.0])))})
                 ops.append({"a": "S0", "op": "solve"})
         ops = G.sprinkle_evq(rng, ops, "S0", spec, prob=0.1)
+        ops = G.sprinkle_misc(rng, ops, "S0", prob=0.08)
+        if rng.random() < 0.08:
+            # refine explicitly, then search on (and Solve again)
+            ops += [{"a": "S0", "op": "refine", "n": rng.choice([1, 5, 25])}, {"a": "S0", "op": "iterate", "k": rng.randint(1, 6)}, {"a": "S0", "op": "solve"}]
         plan = G.base_plan(self.prop, run_seed, {"S0": spec}, ops, clock=G.gen_clock(rng))
         plan["edge"] = edge
         gen_self_reads(rng, plan)
@@ -457,6 +464,15 @@ class C05(SolverSuite):
             if not any(o["op"] == "solve" for o in ops if o["a"] == "S0"):
                 ops.append({"a": "S0", "op": "solve"})
             return G.base_plan(self.prop, run_seed, {"S0": spec, "S1": s1}, ops, clock=G.gen_clock(rng))
+        if rng.random() < 0.1:
+            # company on another box, often given the very same SolverParameters object; both may refine
+            actors = {"S0": spec}
+            ops = _maybe_company(rng, actors, ops, force=True)
+            if "S1" in actors and rng.random() < 0.7:
+                actors["S1"]["params"]["refineSolution"] = True
+                if actors["S1"].get("params_obj"):
+                    spec["params"]["refineSolution"] = True
+            return G.base_plan(self.prop, run_seed, actors, ops, clock=G.gen_clock(rng))
         if rng.random() < 0.1:
             return gen_self_reads(rng, G.base_plan(self.prop, run_seed, {"S0": spec}, ops, clock=G.gen_clock(rng)), prob=1.0)
         return transient_fault_then_continue(rng, G.base_plan(self.prop, run_seed, {"S0": spec}, ops, clock=G.gen_clock(rng)), prob=0.15)
